@@ -2579,9 +2579,13 @@ EbErrorType decode_multiple_obu(EbDecHandle *dec_handle_ptr, uint8_t **data, siz
             uint16_t  prev_max_frame_height = dec_handle_ptr->seq_header.max_frame_height;
             EbColorConfig prev_color        = dec_handle_ptr->seq_header.color_config;
 
-            status = read_sequence_header_obu(&bs, &dec_handle_ptr->seq_header);
+            /* parse into a copy: a rejected header must not leave half-updated dimensions behind
+             * (they size every later memset / loop while the buffers keep their old size) */
+            SeqHeader new_seq_header = dec_handle_ptr->seq_header;
+            status                   = read_sequence_header_obu(&bs, &new_seq_header);
             if (status != EB_ErrorNone)
                 return status;
+            dec_handle_ptr->seq_header = new_seq_header;
             if (dec_handle_ptr->seq_header.color_config.bit_depth == EB_TWELVE_BIT)
                 dec_init_intra_predictors_12b_internal();
             dec_handle_ptr->seq_header_done = 1;
